@@ -1,0 +1,21 @@
+//go:build verif
+
+package function
+
+import "github.com/thanos-community/promql-engine/execution/model"
+
+// VerifChildren exposes the child slots of the operators of this package to the
+// verification harness (build tag verif only).
+func VerifChildren(op model.VectorOperator) []*model.VectorOperator {
+	switch o := op.(type) {
+	case *functionOperator:
+		out := make([]*model.VectorOperator, len(o.nextOps))
+		for i := range o.nextOps {
+			out[i] = &o.nextOps[i]
+		}
+		return out
+	case *histogramOperator:
+		return []*model.VectorOperator{&o.scalarOp, &o.vectorOp}
+	}
+	return nil
+}
